@@ -194,6 +194,12 @@ func raceC15(seed uint64, rounds int) string {
 				`<i :text="${p4.Next() + %[1]d}" :class="c%[1]d ${st.Name} ${st.Tags[%[2]d]}"></i>`+
 				`<b :if="${num + %[1]d > 3 && 'k%[1]d\'' != name}" :text="${1.5 * %[1]d + 0.25}">y</b><b :else :text="${'else%[1]d\\'}"></b>`+
 				`<u :range="i, x : xs" :text="${string(i) + '\'%[1]d\'' + string(x)}"></u>`, k, k%2)
+			// range objects are compiled while the template is EXECUTED: one followed by a multi-line comment, and (every
+			// other template, last, so that everything before it is rendered) one with trailing text, which fails the render
+			body += fmt.Sprintf("<s :range=\"i, x : xs /* k%d \n more */\" :text=\"${string(i) + 'r%d'}\"></s>", k, k)
+			if k%2 == 1 {
+				body += fmt.Sprintf(`<s :range="i, x : xs extra%d + 1 ( ]"></s>`, k)
+			}
 			files = append(files, [2]string{fmt.Sprintf("e%d.html", k), body})
 		}
 		cfg := tmplCfg{ap: ":", tp: "t:", global: map[string]any{}}
